@@ -119,6 +119,26 @@ class UFModel(Model):
     def G(self, q):
         if self.mk.symbolic:
             from symx.core import SV
+            from symx.dual import D
+            if any(isinstance(x, D) for x in q):
+                # dual-number input: the Jacobian of the gradient is an uninterpreted SYMMETRIC matrix function (a Hessian)
+                import z3
+                vals = [x.v if isinstance(x, D) else SV.lift(x) for x in q]
+                args = [v.e for v in vals]
+                R = z3.RealSort()
+                out = []
+                for i in range(self.dim):
+                    gi = SV(self.Gf[i](*args))
+                    K = max(len(x.t) for x in q if isinstance(x, D))
+                    tang = [SV(0)] * K
+                    for j in range(self.dim):
+                        if not isinstance(q[j], D):
+                            continue
+                        a, b = min(i, j), max(i, j)
+                        hij = SV(z3.Function(f"Uhess{a}{b}", *([R] * (self.dim + 1)))(*args))
+                        tang = [t + hij * dq for t, dq in zip(tang, q[j].t)]
+                    out.append(D(gi, tang))
+                return np.array(out, dtype=object)
             return np.array([SV(f(*[SV.lift(x).e for x in q])) for f in self.Gf], dtype=object)
         return np.array([self._lookup(f"Ugrad{i}", q) for i in range(self.dim)], dtype=float)
 
